@@ -46,7 +46,7 @@ func (c09) Classes() []sim.Class {
 func (c09) Describe() sim.Description {
 	return sim.Description{
 		Level: "exploration",
-		Rule: "tape-generated histories of 8-30 operations over a small module family (A: exports a function, a function reference getter and a table; B: imports A's function and table; C: private table and funcref global with set/call; D: imports A's function and pauses inside a host function between two calls of it), in one runtime or two runtimes sharing a CompilationCache: " +
+		Rule: "tape-generated histories of 8-30 operations over a small module family (A: exports a function, a function reference getter, a table and a call-through-the-table function; B: imports A's function and table; E: imports A's table and writes its own function into it with an element segment; C: private table and funcref global with set/call; D: imports A's function and pauses inside a host function between two calls of it), in one runtime or two runtimes sharing a CompilationCache: " +
 			"instantiate (Instantiate = compiled module closed with the instance, or CompileModule+InstantiateModule), call, pass a function reference A -> host -> C (table slot or global), close instance, close compiled module, close cache, drop the harness's own Go references, force GC (1-3 cycles, finalizers drained), with a D call optionally in progress (parked in the host function) while the others happen. " +
 			"Oracle: a twin runtime receives the same history without the close/drop/GC operations; every call on a still-open instance must return the twin's result or an ordinary error; the process must survive (worker death = violation). Steps that call through a reference whose definer is dropped and has no live importer are the recorded known finding: generated, counted, not executed here; executed in the sacrificial class dangling-reference. " +
 			"Non-trivial: at least one forced GC happened after a close/drop and a later call went through an import edge, an exported table, a held reference or a call in progress; distinct = distinct operation-kind sequences",
@@ -64,6 +64,8 @@ func modA(k int32) []byte {
 	i32 := []wasmb.ValType{wasmb.I32}
 	inc := m.AddFunc(i32, i32, nil, (&wasmb.Code{}).LocalGet(0).I32Const(k).I32Add().B, "inc")
 	m.AddFunc(nil, []wasmb.ValType{wasmb.FuncRef}, nil, (&wasmb.Code{}).RefFunc(inc).B, "getref")
+	ti := m.AddType(i32, i32)
+	m.AddFunc([]wasmb.ValType{wasmb.I32, wasmb.I32}, i32, nil, (&wasmb.Code{}).LocalGet(1).LocalGet(0).CallIndirect(ti, 0).B, "callslot")
 	m.Tables = []wasmb.Table{{Elem: wasmb.FuncRef, Lim: wasmb.Limits{Min: 4}}}
 	m.Elems = []wasmb.Elem{{Mode: 0, Offset: wasmb.ConstI32(0), Funcs: []uint32{inc}}}
 	m.Exports = append(m.Exports, wasmb.Export{Name: "tab", Kind: wasmb.KindTable, Idx: 0})
@@ -79,6 +81,17 @@ func modB() []byte {
 	t := m.AddType(i32, i32)
 	m.AddFunc(i32, i32, nil, (&wasmb.Code{}).LocalGet(0).Call(inc).Call(inc).B, "twice")
 	m.AddFunc(i32, i32, nil, (&wasmb.Code{}).LocalGet(0).I32Const(0).CallIndirect(t, 0).B, "viatab")
+	return m.Encode()
+}
+
+// modE imports A's exported table and writes ITS OWN function into a slot with
+// an active element segment: the exported table then refers into this instance.
+func modE(k int32, slot int32) []byte {
+	m := &wasmb.Module{}
+	i32 := []wasmb.ValType{wasmb.I32}
+	m.Imports = append(m.Imports, wasmb.Import{Module: "a", Name: "tab", Kind: wasmb.KindTable, Table: wasmb.Table{Elem: wasmb.FuncRef, Lim: wasmb.Limits{Min: 4}}})
+	mul := m.AddFunc(i32, i32, nil, (&wasmb.Code{}).LocalGet(0).I32Const(k).I32Mul().B, "mul")
+	m.Elems = []wasmb.Elem{{Mode: 0, Offset: wasmb.ConstI32(slot), Funcs: []uint32{mul}}}
 	return m.Encode()
 }
 
@@ -138,6 +151,8 @@ type runner struct {
 	twin            *side
 	curA            int // index of the open A registered as "a" (-1 none)
 	everA           bool
+	followUp        []int
+	forceImporter   bool
 	cacheClosed     bool
 	shape           []string
 	gcAfterClose    bool
@@ -253,6 +268,8 @@ func (r *runner) instantiateOn(s *side, kind byte, k int32, via int, rtIdx int) 
 		bin = modC()
 	case 'D':
 		bin = modD()
+	case 'E':
+		bin = modE(k, 1+k%3)
 	}
 	rt := s.rts[rtIdx]
 	in := &instance{kind: kind, k: k, rt: rtIdx, definer: -1, glob: -1, slots: [3]int{-1, -1, -1}}
@@ -325,13 +342,31 @@ func (r *runner) compareCall(what string, i int, fn string, args ...uint64) {
 func (r *runner) step(shared bool) {
 	t := r.t
 	k := t.Weighted(5, 6, 4, 3, 2, 2, 4, 2, 1)
+	// bias: right after an importer that wrote into the exported table was dropped, follow up with
+	// "another importer arrives, collect, call through the slot" (faults placed where in-flight state is)
+	if len(r.followUp) > 0 {
+		k = r.followUp[0]
+		r.followUp = r.followUp[1:]
+	}
+	if k >= 100 {
+		// forced probe: the owner calls through the slot the dropped importer wrote
+		if r.curA >= 0 && !r.real.insts[r.curA].dropped && r.curA != r.real.pausedInst {
+			x := uint64(t.Choose(100))
+			r.compareCall(fmt.Sprintf("call #%d A.callslot(%d,%d) [slot written by a dropped importer]", r.curA, k-100, x), r.curA, "callslot", uint64(k-100), x)
+		}
+		return
+	}
 	switch k {
 	case 0: // instantiate
-		kind := "ABCD"[t.Weighted(3, 3, 3, 2)]
+		kind := "ABCDE"[t.Weighted(3, 3, 3, 2, 3)]
+		if r.forceImporter {
+			kind = 'B'
+			r.forceImporter = false
+		}
 		if kind == 'A' && r.curA >= 0 {
 			kind = 'B'
 		}
-		if (kind == 'B' || kind == 'D') && r.curA < 0 {
+		if (kind == 'B' || kind == 'D' || kind == 'E') && r.curA < 0 {
 			kind = 'A'
 		}
 		if kind == 'A' && r.everA {
@@ -355,7 +390,7 @@ func (r *runner) step(shared bool) {
 			}
 			return
 		}
-		if kind == 'B' || kind == 'D' {
+		if kind == 'B' || kind == 'D' || kind == 'E' {
 			ri.definer, ti.definer = r.curA, r.curA
 		}
 		r.real.insts = append(r.real.insts, ri)
@@ -365,7 +400,7 @@ func (r *runner) step(shared bool) {
 			r.everA = true
 		}
 	case 1: // call
-		i := r.pickInst("ABCD", true)
+		i := r.pickInst("ABCDE", true)
 		if i < 0 || i == r.real.pausedInst {
 			return
 		}
@@ -373,7 +408,15 @@ func (r *runner) step(shared bool) {
 		x := uint64(t.Choose(100))
 		switch in.kind {
 		case 'A':
-			r.compareCall(fmt.Sprintf("call #%d A.inc(%d)", i, x), i, "inc", x)
+			if t.Chance(1, 2) {
+				// through the exported table: slots 1-3 may hold functions of (closed, dropped, collected) importers
+				slot := uint64(t.Choose(4))
+				r.compareCall(fmt.Sprintf("call #%d A.callslot(%d,%d) [exported table]", i, slot, x), i, "callslot", slot, x)
+			} else {
+				r.compareCall(fmt.Sprintf("call #%d A.inc(%d)", i, x), i, "inc", x)
+			}
+		case 'E':
+			r.compareCall(fmt.Sprintf("call #%d E.mul(%d)", i, x), i, "mul", x)
 		case 'B':
 			fn := tape.Pick(t, []string{"twice", "viatab"})
 			r.compareCall(fmt.Sprintf("call #%d B.%s(%d) [imports from #%d]", i, fn, x, in.definer), i, fn, x)
@@ -431,7 +474,7 @@ func (r *runner) step(shared bool) {
 			r.log("passref A#%d -> C#%d.slot%d err=%v", a, c, slot, err)
 		}
 	case 3: // close instance
-		i := r.pickInst("ABCD", true)
+		i := r.pickInst("ABCDE", true)
 		if i < 0 || i == r.real.pausedInst {
 			return
 		}
@@ -460,7 +503,7 @@ func (r *runner) step(shared bool) {
 		r.res.Stat("fault.close_compiled", 1)
 		r.log("closeCompiled #%d err=%v", i, err)
 	case 5: // drop the harness's references
-		i := r.pickInst("ABCD", false)
+		i := r.pickInst("ABCDE", false)
 		if i < 0 || i == r.real.pausedInst {
 			return
 		}
@@ -472,8 +515,15 @@ func (r *runner) step(shared bool) {
 				r.curA = -1
 			}
 		}
+		if in.compiled != nil {
+			in.compiled.Close(r.ctx)
+		}
 		in.mod, in.compiled = nil, nil
 		in.dropped = true
+		if in.kind == 'E' && r.curA >= 0 && t.Chance(1, 2) {
+			r.followUp = []int{0, 6, 100 + int(1+in.k%3)}
+			r.forceImporter = true
+		}
 		r.closedOrDropped = true
 		r.res.Stat("fault.drop_host_references", 1)
 		r.log("drop #%d (%c)", i, in.kind)
